@@ -532,8 +532,10 @@ where
 
     fn set_resample_ratio(&mut self, new_ratio: f64, ramp: bool) -> ResampleResult<()> {
         trace!("Change resample ratio to {}", new_ratio);
-        if (new_ratio / self.resample_ratio_original >= 1.0 / self.max_relative_ratio)
-            && (new_ratio / self.resample_ratio_original <= self.max_relative_ratio)
+        // Compare with the documented bounds themselves; dividing by the original
+        // ratio first can round an exact bound out of range.
+        if (new_ratio >= self.resample_ratio_original / self.max_relative_ratio)
+            && (new_ratio <= self.resample_ratio_original * self.max_relative_ratio)
         {
             if !ramp {
                 self.resample_ratio = new_ratio;
@@ -551,7 +553,18 @@ where
 
     fn set_resample_ratio_relative(&mut self, rel_ratio: f64, ramp: bool) -> ResampleResult<()> {
         let new_ratio = self.resample_ratio_original * rel_ratio;
-        self.set_resample_ratio(new_ratio, ramp)
+        if (rel_ratio >= 1.0 / self.max_relative_ratio) && (rel_ratio <= self.max_relative_ratio) {
+            // Rounding in the multiplication must not push an accepted value out of range.
+            let min_ratio = self.resample_ratio_original / self.max_relative_ratio;
+            let max_ratio = self.resample_ratio_original * self.max_relative_ratio;
+            self.set_resample_ratio(new_ratio.clamp(min_ratio, max_ratio), ramp)
+        } else {
+            Err(ResampleError::RatioOutOfBounds {
+                provided: new_ratio,
+                original: self.resample_ratio_original,
+                max_relative_ratio: self.max_relative_ratio,
+            })
+        }
     }
 
     fn reset(&mut self) {
@@ -864,8 +877,10 @@ where
 
     fn set_resample_ratio(&mut self, new_ratio: f64, ramp: bool) -> ResampleResult<()> {
         trace!("Change resample ratio to {}", new_ratio);
-        if (new_ratio / self.resample_ratio_original >= 1.0 / self.max_relative_ratio)
-            && (new_ratio / self.resample_ratio_original <= self.max_relative_ratio)
+        // Compare with the documented bounds themselves; dividing by the original
+        // ratio first can round an exact bound out of range.
+        if (new_ratio >= self.resample_ratio_original / self.max_relative_ratio)
+            && (new_ratio <= self.resample_ratio_original * self.max_relative_ratio)
         {
             if !ramp {
                 self.resample_ratio = new_ratio;
@@ -885,7 +900,18 @@ where
 
     fn set_resample_ratio_relative(&mut self, rel_ratio: f64, ramp: bool) -> ResampleResult<()> {
         let new_ratio = self.resample_ratio_original * rel_ratio;
-        self.set_resample_ratio(new_ratio, ramp)
+        if (rel_ratio >= 1.0 / self.max_relative_ratio) && (rel_ratio <= self.max_relative_ratio) {
+            // Rounding in the multiplication must not push an accepted value out of range.
+            let min_ratio = self.resample_ratio_original / self.max_relative_ratio;
+            let max_ratio = self.resample_ratio_original * self.max_relative_ratio;
+            self.set_resample_ratio(new_ratio.clamp(min_ratio, max_ratio), ramp)
+        } else {
+            Err(ResampleError::RatioOutOfBounds {
+                provided: new_ratio,
+                original: self.resample_ratio_original,
+                max_relative_ratio: self.max_relative_ratio,
+            })
+        }
     }
 
     fn reset(&mut self) {
